@@ -222,26 +222,38 @@ def writeOpt (w : WCur) (version payload : Nat) : Res WCur := do
   let w ← w.u32be (opt_ttl 0 version 0)
   w.u16be 0
 
-/-- `QueryWriter::write(qname, qtype, qclass, recursion_desired, opt)` on a buffer of `cap` bytes with
-    message id `id`; returns the final buffer and the message length (prefix included) -/
-def writeQuery (cap id : Nat) (qname : Bytes) (qtype qclass : Nat) (rd : Bool) (opt : Option (Nat × Nat)) :
-    Res (Bytes × Nat) := do
-  let w := WCur.new cap
+/-- `QueryWriter::write`, the part that appends: prefix placeholder, header, question, optional OPT -/
+def queryBody (w : WCur) (id : Nat) (qname : Bytes) (qtype qclass : Nat) (rd : Bool) (opt : Option (Nat × Nat)) :
+    Res WCur := do
   -- `*Flags::new().set_recursion_desired(rd)` : bit 8
-  let flags := if rd then 256 else 0
   let w ← w.u16be 0
-  let w ← writeHeader w id flags 1 0 0 (if opt.isSome then 1 else 0)
-  let (w, _) ← w.writeDomainName qname
+  let w ← writeHeader w id (if rd then 256 else 0) 1 0 0 (if opt.isSome then 1 else 0)
+  let w ← (w.writeDomainName qname).bind (fun x => .ok x.1)
   let w ← w.u16be qtype
   let w ← w.u16be qclass
-  let w ← match opt with
-    | some (version, payload) => writeOpt w version payload
-    | none => pure w
-  -- `let pos = self.wcursor.reset_pos(); self.wcursor.u16_be((pos - 2) as u16)?`
+  match opt with
+  | some (version, payload) => writeOpt w version payload
+  | none => pure w
+
+/-- `let pos = self.wcursor.reset_pos(); self.wcursor.u16_be((pos - 2) as u16)?; Ok(pos)` -/
+def finishQuery (w : WCur) : Res (Bytes × Nat) :=
   let pos := w.pos
   if pos < 2 then .panic .overflow
   else
-    let w ← ({ w with pos := 0 } : WCur).u16be ((pos - 2) % 65536)
-    pure (w.buf, pos)
+    match ({ w with pos := 0 } : WCur).u16be ((pos - 2) % 65536) with
+    | .ok w' => .ok (w'.buf, pos)
+    | .err e => .err e
+    | .panic p => .panic p
+    | .ub => .ub
+
+/-- `QueryWriter::write(qname, qtype, qclass, recursion_desired, opt)` on a buffer of `cap` bytes with
+    message id `id`; returns the final buffer and the message length (prefix included) -/
+def writeQuery (cap id : Nat) (qname : Bytes) (qtype qclass : Nat) (rd : Bool) (opt : Option (Nat × Nat)) :
+    Res (Bytes × Nat) :=
+  match queryBody (WCur.new cap) id qname qtype qclass rd opt with
+  | .ok w => finishQuery w
+  | .err e => .err e
+  | .panic p => .panic p
+  | .ub => .ub
 
 end Rsdns
